@@ -848,12 +848,16 @@ impl<'r> Builder<'r> {
         if self.rng.below(100) < self.cfg.mint_pct {
             for _ in 0..1 + self.rng.usize(2) {
                 let mut amount = self.token_atom();
+                let mut single_policy = true;
                 if self.rng.chance(1, 3) {
                     let b = self.token_atom();
                     amount = E::Add(Box::new(amount), Box::new(b));
                     self.tag("mint-sum");
+                    single_policy = false;
                 }
-                let redeemer = if self.cfg.redeemers && self.rng.bool() { Some(self.any_datum(Pos::Plain)) } else { None };
+                // the ledger has one redeemer per policy: a redeemer is only written on blocks that
+                // name a single asset
+                let redeemer = if self.cfg.redeemers && single_policy && self.rng.bool() { Some(self.any_datum(Pos::Plain)) } else { None };
                 if redeemer.is_some() {
                     self.tag("mint-redeemer");
                 }
